@@ -21,6 +21,17 @@ CHECKS.update({
          "Exploration: algorithms::div and every specialised kernel (n-by-1, n-by-2, n-by-m normalised and un-normalised, 2-by-1, 3-by-2, reciprocals) on their documented domains against exact quotient/remainder and the closed-form reciprocal; reach of every correction branch is measured by hook counters and reported in the evidence.",
          "Trusts num-bigint/u128 division; div_nxm_normalized only on the shape used by the repo's own tests; div_3x2_ref excluded (documented off by one).", "DESIGN.md 4 C14"),
 })
+CHECKS.update({
+ "C05": ("property-based testing (proptest; amounts biased to limb/BITS boundaries, Uint-typed amounts incl. >= 2^64) + exhaustive enumeration for BITS<=8, num-bigint oracle",
+         "Exploration: all shift/rotate methods, the <<, >>, <<=, >>= overloads for 10 integer types (value and reference amounts) and for Uint amounts compared with exact BigUint shifts and the documented lost-bit overflow predicate; flag-true cases classified by how the bit left the word (dropped limb / mask / bit carry); complete enumeration of value x amount for widths <= 8 bits.",
+         "Trusts num-bigint; signed operator amounts non-negative only; x86-64 (usize = u64).", "DESIGN.md 4 C05"),
+ "C06": ("property-based testing (proptest) + exhaustive enumeration for BITS<=8 (all pairs, all value x index), bit-level num-bigint oracle",
+         "Exploration: logic operators, bit/set_bit/byte/checked_byte with in- and out-of-range indices, all counting functions, reverse_bits, power-of-two helpers and most_significant_bits compared with definitions over exactly BITS bits; complete enumeration for widths <= 8 bits.",
+         "Trusts num-bigint; little-endian byte() arm only.", "DESIGN.md 4 C06"),
+ "C15": ("property-based testing (proptest, slice-shape generators) + full-square enumeration of a 440-word boundary alphabet for the scalar primitives, exact integer identities in num-bigint/u128",
+         "Exploration: addmul/addmul_n/mul_nx1/addmul_nx1/submul_nx1/add_nx1/adc_n/sbb_n/shift_*_small/cmp on lengths 0..=10 with zero-limb and all-ones shapes and accumulators shorter/equal/longer than the product, checked by exact identities (result limbs and carry/borrow word); adc/sbb/carrying_add/borrowing_sub on the complete square of the boundary alphabet x both carries.",
+         "Trusts num-bigint/u128; carry-in > 1 and unequal nx1 lengths are outside the callers' domain (no-panic only / not exercised).", "DESIGN.md 4 C15"),
+})
 NOT_YET = {}
 
 def main():
